@@ -126,4 +126,118 @@ theorem portEntries_allMaps (ign : Bool) (l acc r : List Val) (hacc : AllMaps ac
       · exact ⟨m, hx⟩
     | _ => simp [portEntries] at h
 
+theorem lookup_append_self (k : String) (x : Val) (m : Val.KVs) : (Val.lookup k (m ++ [(k, x)])).isSome = true := by
+  induction m with
+  | nil => simp [Val.lookup]
+  | cons p r ih =>
+    obtain ⟨k', v'⟩ := p
+    simp only [List.cons_append, Val.lookup]
+    split
+    · rfl
+    · exact ih
+
+theorem lookup_append_of_isSome (k : String) (m m' : Val.KVs) (h : (Val.lookup k m).isSome = true) :
+    (Val.lookup k (m ++ m')).isSome = true := by
+  induction m with
+  | nil => simp [Val.lookup] at h
+  | cons p r ih =>
+    obtain ⟨k', v'⟩ := p
+    simp only [List.cons_append, Val.lookup] at h ⊢
+    split
+    · rfl
+    · rename_i hne; simp only [hne, if_false] at h; exact ih h
+
+theorem hasKey_append_self (k : String) (x : Val) (m : Val.KVs) : hasKey k (m ++ [(k, x)]) = true :=
+  lookup_append_self k x m
+theorem hasKey_append (k : String) (m m' : Val.KVs) (h : hasKey k m = true) : hasKey k (m ++ m') = true :=
+  lookup_append_of_isSome k m m' h
+
+theorem dependsDefaults_keys (d : Val.KVs) :
+    hasKey "condition" (dependsDefaults d) = true ∧ hasKey "required" (dependsDefaults d) = true := by
+  unfold dependsDefaults
+  cases hc : hasKey "condition" d
+  · simp only [Bool.false_eq_true, if_false]
+    cases hr : hasKey "required" (d ++ [("condition", Val.str "service_started")])
+    · simp only [Bool.false_eq_true, if_false]
+      exact ⟨hasKey_append _ _ _ (hasKey_append_self _ _ _), hasKey_append_self _ _ _⟩
+    · simp only [if_true]
+      exact ⟨hasKey_append_self _ _ _, hr⟩
+  · simp only [if_true]
+    cases hr : hasKey "required" d
+    · simp only [Bool.false_eq_true, if_false]
+      exact ⟨hasKey_append _ _ _ hc, hasKey_append_self _ _ _⟩
+    · simp only [if_true]
+      exact ⟨hc, hr⟩
+
+theorem dependsDefaults_fix (d : Val.KVs) (h1 : hasKey "condition" d = true) (h2 : hasKey "required" d = true) :
+    dependsDefaults d = d := by
+  simp [dependsDefaults, h1, h2]
+
+def DepOK (r : Val.KVs) : Prop :=
+  ∀ p ∈ r, ∃ d, p.2 = Val.map d ∧ hasKey "condition" d = true ∧ hasKey "required" d = true
+
+theorem dependsMap_of_DepOK (r : Val.KVs) (h : DepOK r) : dependsMap r = .ok r := by
+  induction r with
+  | nil => rfl
+  | cons p t ih =>
+    obtain ⟨k, e⟩ := p
+    obtain ⟨d, hd, h1, h2⟩ := h (k, e) (by simp)
+    simp only at hd
+    subst hd
+    simp [dependsMap, ih (fun q hq => h q (by simp [hq])), dependsDefaults_fix d h1 h2]
+
+theorem DepOK_of_dependsMap (m r : Val.KVs) (h : dependsMap m = .ok r) : DepOK r := by
+  induction m generalizing r with
+  | nil => simp [dependsMap] at h; subst h; intro p hp; simp at hp
+  | cons p t ih =>
+    obtain ⟨k, e⟩ := p
+    cases e with
+    | map d =>
+      simp only [dependsMap] at h
+      cases ht : dependsMap t with
+      | ok r' =>
+        simp only [ht, Out.ok.injEq] at h
+        subst h
+        intro q hq
+        simp only [List.mem_cons] at hq
+        rcases hq with hq | hq
+        · subst hq; exact ⟨_, rfl, (dependsDefaults_keys d).1, (dependsDefaults_keys d).2⟩
+        · exact ih r' ht q hq
+      | err x => simp [ht] at h
+      | panic x => simp [ht] at h
+    | _ => simp [dependsMap] at h
+
+theorem mem_insert (k : String) (v : Val) (acc : Val.KVs) (p : String × Val) (h : p ∈ Val.insert k v acc) :
+    p = (k, v) ∨ p ∈ acc := by
+  induction acc with
+  | nil => simp [Val.insert] at h; exact Or.inl h
+  | cons q r ih =>
+    obtain ⟨k', v'⟩ := q
+    simp only [Val.insert] at h
+    split at h
+    · simp only [List.mem_cons] at h
+      rcases h with h | h
+      · exact Or.inl h
+      · exact Or.inr (by simp [h])
+    · simp only [List.mem_cons] at h
+      rcases h with h | h
+      · exact Or.inr (by simp [h])
+      · rcases ih h with h' | h'
+        · exact Or.inl h'
+        · exact Or.inr (by simp [h'])
+
+theorem DepOK_of_dependsList (l : List Val) (acc r : Val.KVs) (hacc : DepOK acc) (h : dependsList l acc = .ok r) : DepOK r := by
+  induction l generalizing acc with
+  | nil => simp [dependsList] at h; subst h; exact hacc
+  | cons e t ih =>
+    cases e with
+    | str k =>
+      simp only [dependsList] at h
+      apply ih _ _ h
+      intro p hp
+      rcases mem_insert _ _ _ _ hp with hp | hp
+      · subst hp; exact ⟨_, rfl, by decide, by decide⟩
+      · exact hacc p hp
+    | _ => simp [dependsList] at h
+
 end CV.Short
